@@ -107,7 +107,7 @@ class NonLinear(Contract):
         cor = _mat(L["cor"])
         d = z(cor.shape[0])
         k = z(L["k"])
-        out = {"square": z3.And(z(cor.shape[0]) == z(_mat(L["df"]).shape[1]), z(cor.shape[1]) == z(_mat(L["df"]).shape[1]))}
+        out = {"square": z3.And(z(cor.shape[0]) == z(_mat(L.local("df")).shape[1]), z(cor.shape[1]) == z(_mat(L.local("df")).shape[1]))}
         cnt = lambda i, j: k + z3.If(done(i, j), 1, 0)
         arrs = [cor] + ([_mat(L["mini"]), _mat(L["maxi"])] if L["minmax"] else [])
         for nm, m in zip(("sum", "min", "max"), arrs):          # one quantifier per matrix: each is its own trigger
@@ -198,6 +198,9 @@ class _LK:
         if name == "k":
             return self.k
         return self.L[name]
+
+    def local(self, name):
+        return self.L.local(name)
 
 
 META = dict(
